@@ -73,22 +73,35 @@ def run(ctx):
         if t == "stop[0] == 'VALUE'": return True
         return None
     def effect(n_, env):
-        if n_.kind == 'stmt' and isinstance(n_.ast, ast.Assign) and any(dotted(t) == 'len_sql' for t in n_.ast.targets): return {'normal': [{'len': 'set'}]}
+        if n_.kind == 'stmt' and isinstance(n_.ast, ast.Assign) and any(dotted(t) == 'len_sql' for t in n_.ast.targets):
+            return {'normal': [{'len': 'set' if env['len'].startswith('set') else 'set:%d' % n_.id}]}       # remember the first length expression chosen
         # start_value += 1 keeps the sign class for the purposes of the later tests only if re-read; the code re-reads start[1]
         if n_.kind == 'stmt' and isinstance(n_.ast, ast.Assign) and any(dotted(t) == 'start_value' for t in n_.ast.targets) and norm(n_.ast.value) == 'start[1]':
             return {'normal': [{'start_value': env['s0']}]}
         return None
     dead_ends = [x for x in g.nodes if x.kind == 'stmt' and isinstance(x.ast, ast.Assert) and isinstance(x.ast.test, ast.Constant) and not x.ast.test.value]
+    chosen = {}
     for sv in ('neg', 'zero', 'pos'):
         for ev_ in ('neg', 'zero', 'pos'):
             m = Machine(g, ['start_value', 'stop_value', 'len', 's0'], effect, atom, resolve=True)
             IN = m.run([{'start_value': sv, 'stop_value': ev_, 'len': 'unset', 's0': sv}])
             sts = m.states_at(IN, g.exit)
-            ok = bool(sts) and all(e['len'] == 'set' for e in sts) and not any(d.id in IN for d in dead_ends)
+            ok = bool(sts) and all(e['len'].startswith('set') for e in sts) and not any(d.id in IN for d in dead_ends)
+            chosen[(sv, ev_)] = frozenset(e['len'] for e in sts)
             ob = ctx.ob('C25-TOTAL.sign-case-analysis-is-total', bs, bs.node, ok,
                         '' if ok else 'for a constant start %s 0 and constant stop %s 0 no length expression is produced (falls into the failing else / returns without it)'
                         % ({'neg': '<', 'zero': '==', 'pos': '>'}[sv], {'neg': '<', 'zero': '==', 'pos': '>'}[ev_]))
             ob.key += '::start=%s,stop=%s' % (sv, ev_)
+    # ... and 0 is a position counted from the left: a bound equal to 0 is treated like a positive one (s[-3:0] is empty like s[-3:2] is a window
+    # from the right end to an absolute position -- not like s[-3:-1], whose length is the difference of the bounds)
+    for (sv, ev_), got in sorted(chosen.items()):
+        twin = ('pos' if sv == 'zero' else sv, 'pos' if ev_ == 'zero' else ev_)
+        if twin == (sv, ev_) or twin not in chosen: continue
+        okz = got == chosen[twin]
+        ctx.ob('C25-TOTAL.a-zero-bound-is-handled-like-a-positive-one', bs, bs.node, okz,
+               '' if okz else 'for a constant start %s 0 and stop %s 0 another length expression is chosen than for the same slice with positive bounds: a bound of 0 is counted from the '
+               'left like any non-negative bound (s[-3:0] must be empty; with the length of the both-negative case it returns the last three characters)'
+               % ({'neg': '<', 'zero': '==', 'pos': '>'}[sv], {'neg': '<', 'zero': '==', 'pos': '>'}[ev_])).key += '::zero::start=%s,stop=%s' % (sv, ev_)
     # non-constant branches clamp at 0
     ifs = [s for s in walk_no_nested(bs.node) if isinstance(s, ast.Assign) and any(dotted(t) == 'len_sql' for t in s.targets) and isinstance(s.value, ast.List)
            and s.value.elts and isinstance(s.value.elts[0], ast.Constant) and s.value.elts[0].value == 'IF']
@@ -266,6 +279,7 @@ def bodies(node):
 
 
 MUTANTS = [
+    dict(id='C25-zero1', file='pony/orm/sqlbuilding.py', fn='SQLBuilder.STRING_SLICE', old="                elif start_value < 0 and stop_value < 0:", new="                elif start_value < 0 and stop_value <= 0:", expect='C25-TOTAL.a-zero-bound'),
     dict(id='C25-clamp', file='pony/orm/sqlbuilding.py', fn='SQLBuilder.STRING_SLICE', old="                    len_sql = [ 'VALUE', max(stop_value - start_value, 0) ]  # s[3:1] is empty; PostgreSQL rejects a negative length", new="                    len_sql = [ 'VALUE', stop_value - start_value ]", expect='C25-TOTAL.constant-length'),
     dict(id='C25-twin', file='pony/orm/sqltranslation.py', fn='StringMixin.__getitem__', old="            index_sql = [ 'IF', [ 'GE', inner_sql, [ 'VALUE', 0 ] ], then, else_ ]", new="            index_sql = [ 'IF', [ 'GT', inner_sql, [ 'VALUE', 0 ] ], then, else_ ]", expect='C25-INDEXTWIN'),
     dict(id='C25-m1', file='pony/orm/sqltranslation.py', fn='StringMixin.__getitem__', old='            if stop is None: stop_value = -1', new='            if stop_value is None: stop_value = -1', expect='C25-DEFAULT'),
